@@ -314,7 +314,7 @@ RECURSIVE TreeStr(_)
 TreeStr(v) ==
   CASE v.t = "leaf" -> "[" \o JoinS([i \in DOMAIN v.ts |-> JoinS(ExprSeq(v.ts[i]), " & ")], " + ") \o "]"
     [] v.t = "tup" -> "(" \o JoinS([i \in DOMAIN v.items |-> TreeStr(v.items[i])], ", ") \o ")"
-    [] OTHER -> LET ks == SelectSeq(<<"deps", "lhs", "rhs", "root">>, LAMBDA k : k \in Range(v.keys))
+    [] OTHER -> LET ks == SelectSeq(<<"deps", "lhs", "rhs", "root", "x", "y", "z">>, LAMBDA k : k \in Range(v.keys))
                     val(k) == v.vals[CHOOSE i \in DOMAIN v.keys : v.keys[i] = k]
                 IN "<" \o JoinS([j \in DOMAIN ks |-> ks[j] \o "=" \o TreeStr(val(ks[j]))], ", ") \o ">"
 
